@@ -1,5 +1,5 @@
 CONSTANTS
-  Fams = {"options", "ctype", "cond", "auth", "cookie", "url", "range", "date", "body"}
+  Fams = {"options", "ctype", "cond", "auth", "cookie", "url", "range", "date", "body", "accept"}
   FullLen = 3
   MaxLen = 4
   CoreToks = 14
